@@ -640,6 +640,12 @@ def gen_C05(o, rng, tier):
             o.op(f"{r} len")
             o.op(f"{r} iter iter 0 lnnnnnnnl")
         o.end()
+    for cap in (0, 1, 2, 3, 4, 6):
+        for a, b in (("[]", "[3,5,3,9,5]"), ("[1,2]", "[2,7]"), ("[1]", "[1,1]"), ("[]", "[]"), ("[4,5,6]", "[6,5,4,3]"),
+                     ("[]", "[2,2]"), ("[]", "[1,2,1]"), ("[7]", "[8,7,8]")):
+            o.case(s0=cap, s1=cap, tag="e")
+            o.op(f"s0 extend_ref {a} {b}", test=True)      # `Extend<&T>` on a set of plain numbers
+            o.end()
     umap_product(o, 2, {'insert', 'remove', 'entry_ins', 'bulk'})
 
 
@@ -1076,6 +1082,12 @@ def gen_C16(o, rng, tier):
                     o.op(f"s1 extend {pulls} [{zs}]", test=True)
                     o.op(f"s1 extend {pulls} [{ws}]", test=True)
                     o.end()
+    for cap in (0, 1, 2, 3, 4, 6):
+        for a, b in (("[]", "[3,5,3,9,5]"), ("[1,2]", "[2,7]"), ("[1]", "[1,1]"), ("[]", "[]"), ("[4,5,6]", "[6,5,4,3]"),
+                     ("[]", "[2,2]"), ("[]", "[1,2,1]"), ("[7]", "[8,7,8]")):
+            o.case(s0=cap, s1=cap, tag="e")
+            o.op(f"s0 extend_ref {a} {b}", test=True)      # `Extend<&T>` on a set of plain numbers
+            o.end()
     # extending sets that already hold 4..9 elements (block-wise duplicate scans)
     def ext(reg, u):
         L = len(u) - 1
